@@ -86,3 +86,27 @@ Proof.
   - intros H. specialize (H (s2l "zz"%string) eq_refl). vm_compute in H. discriminate.
   - vm_compute. reflexivity.
 Qed.
+
+(* C16: rule codes declared by the external linter count as known and as enabled *)
+Theorem external_codes_known o ec c : In c ec -> known o ec c = true.
+Proof. intros H. unfold known, c_all. apply mem_In. apply in_or_app. right. exact H. Qed.
+
+Theorem external_codes_enabled o ec c : In c ec -> enabled o ec c = true.
+Proof. intros H. unfold enabled, c_enabled. apply mem_In. apply in_or_app. left. exact H. Qed.
+
+(* hence a directive naming a declared external code is never reported as unknown, and is reported as unused
+   exactly when it suppressed nothing (and unused reports are not switched off for the file) *)
+Theorem external_code_accounting o orc f raw ec k d c :
+  oracle_ok orc -> wf_file f -> file_word o <> line_word o ->
+  let fd := find_file_dir (file_word o) (f_leading f) in
+  In (k, d) (c_dirs o orc f fd) -> In c (dir_codes d) -> In c ec ->
+  n_unknown o orc f fd raw ec k d c = 0%nat /\
+  n_unused o orc f fd raw ec k d c = (if negb (used o orc f fd raw ec k c) && negb (unused_switch fd) then 1%nat else 0%nat).
+Proof.
+  intros Hok Hwf Hw fd Hin Hc Hec. unfold n_unknown, n_unused.
+  assert (Hd : NoDup (map (fun p => dir_start (snd p)) (c_dirs o orc f fd))) by (apply dirs_distinct; assumption).
+  assert (Hn : forall k' d', In (k', d') (c_dirs o orc f fd) -> NoDup (dir_codes d')) by (intros k' d'; apply dirs_codes_NoDup; assumption).
+  rewrite (count_unknown_report o orc f fd raw ec Hok Hd Hn k d c Hin Hc).
+  rewrite (count_unused_report o orc f fd raw ec Hok Hd Hn k d c Hin Hc).
+  rewrite (external_codes_known o ec c Hec), (external_codes_enabled o ec c Hec). cbn [negb andb]. rewrite andb_true_r. split; reflexivity.
+Qed.
